@@ -42,8 +42,12 @@ def mux_lockstep_scenarios(tier, seed):
                 dict(nb=4, nph=1, rdphase=0, wrphase=0, read_latency=4, cwl=2, tWTR=2, tFAW=6, tCCD=2, tRRD=2, read_time=8, write_time=4),
                 dict(nb=8, nph=4, rdphase=2, wrphase=3, read_latency=5, cwl=5, tWTR=2, tFAW=5, tCCD=1, tRRD=None, read_time=32, write_time=16),
                 dict(nb=4, nph=2, rdphase=1, wrphase=0, read_latency=6, cwl=3, tWTR=3, tFAW=4, tCCD=2, tRRD=3, read_time=0, write_time=0)]
-    return [dict(name="lockstep-multiplexer-%d" % j, kind="lockstep-mux", seed=seed * 23 + j, ncyc=4000 if tier == "quick" else 15000, params=v)
-            for j, v in enumerate(variants if tier == "quick" else variants * 3)]
+    out = [dict(name="lockstep-multiplexer-%d" % j, kind="lockstep-mux", seed=seed * 23 + j, ncyc=4000 if tier == "quick" else 15000, params=v)
+           for j, v in enumerate(variants if tier == "quick" else variants * 3)]
+    # parameters of the real module that correspond to MC_Multiplexer_quick.cfg
+    out.append(dict(name="b3-multiplexer", kind="b3-mux", seed=seed, cfg="MC_Multiplexer_quick.cfg", num=25 if tier == "quick" else 250, depth=80,
+                    params=dict(nb=2, nph=2, rdphase=0, wrphase=1, read_latency=3, cwl=2, tWTR=0, tFAW=None, tCCD=1, tRRD=2, read_time=3, write_time=2)))
+    return out
 
 
 def _lockstep_mux(sc, workdir):
@@ -56,6 +60,23 @@ def _lockstep_mux(sc, workdir):
     return dict(bad=[], evaluations=r["cycles"], nontrivial=[["lockstep", sc["name"]]] if r["commands"] > 50 else [], traces=1,
                 sample=dict(consts=r["consts"], commands=r["commands"], first=r["sample"][:2]), notes=notes,
                 lockstep=r["cycles"], stats=dict(lockstep_cycles=r["cycles"], lockstep_commands=r["commands"]))
+
+
+def _b3_mux(sc, workdir):
+    """Spec -> code: TLC-generated behaviours of MC_Multiplexer (what every bank machine presents per cycle) replayed into the real
+    Multiplexer and compared in lock-step."""
+    from .. import b3, muxlock
+    behs = b3.behaviours("MC_Multiplexer", sc["cfg"], workdir, num=sc["num"], depth=sc["depth"], seed=sc["seed"] + 1, var="req", kind="func")
+    cyc = cmds = 0
+    notes = []
+    for i, b in enumerate(behs):
+        r = muxlock.run_mux(dict(seed=0, params=sc["params"], stimulus=b), workdir)
+        cyc += r["cycles"]; cmds += r["commands"]
+        if r["mismatches"] and not notes:
+            notes.append("MODEL-DRIFT module=Multiplexer (TLC behaviour %d) cycle=%s signal=%s" % (i, r["mismatches"][0][0], r["mismatches"][0][1:]))
+    return dict(bad=[], evaluations=cyc, nontrivial=[["b3", sc["name"], i] for i in range(len(behs))], traces=len(behs),
+                sample=dict(behaviours=len(behs), commands=cmds, first_requests=behs[0][:6]), notes=notes, lockstep=cyc,
+                stats=dict(lockstep_cycles=cyc, lockstep_commands=cmds, tlc_behaviours_replayed=len(behs)))
 
 
 def mux_models(tier, seed):
@@ -79,6 +100,8 @@ def execute(sc, workdir):
         return c02._b3(sc, workdir)
     if sc.get("kind") == "lockstep-mux":
         return _lockstep_mux(sc, workdir)
+    if sc.get("kind") == "b3-mux":
+        return _b3_mux(sc, workdir)
     r = execute_core(sc, workdir, ID, ("dev",))
     r["nontrivial"] = [[sc["memtype"], sc["clk_khz"], k] for k in r["kinds"] if k in ("ACT", "PRE", "PREA", "RD", "WR", "REF", "ZQCS")]
     return r
